@@ -328,6 +328,12 @@ where
     }
 
     async fn ready(&self, dependencies: &[ID]) -> Result<bool, Self::Error> {
+        // A dependency list is a set. The query below counts the matching rows (unique per id),
+        // so repeated entries must not be counted twice on our side either. Repeated entries
+        // also reach this method from `get_next_pending`, which reads the parent ids of a
+        // pending item once per dependency it is still waiting for.
+        let dependencies: HashSet<&ID> = dependencies.iter().collect();
+
         self.tx(async |tx| {
             let sql = format!(
                 "
